@@ -221,3 +221,14 @@ func freshProcess(name string, req any, reply any) error {
 	}
 	return json.Unmarshal(stdout.Bytes(), reply)
 }
+
+// mix derives a small pseudo-random number from a case index and a salt, so
+// that independent case features are not coupled through residues of the
+// same index (i%2 and i%4 are not independent; mix(i,1,2) and mix(i,2,4) are).
+func mix(i int, salt uint64, mod int) int {
+	x := uint64(i)*0x9E3779B97F4A7C15 + salt*0xBF58476D1CE4E5B9
+	x ^= x >> 31
+	x *= 0x94D049BB133111EB
+	x ^= x >> 29
+	return int(x % uint64(mod))
+}
